@@ -377,4 +377,14 @@ theorem contiguous_linked : ∀ (hs : List Header),
     refine ⟨⟨?_, h0.2⟩, hr⟩
     rw [h0.1]; simp [Nat.add_mod]
 
+
+/-! ## positional consumption of the result channel -/
+
+theorem consumeResults_lockstep {α : Type} : ∀ (rs : List α) (i : Nat),
+    consumeResults (fun _ => false) i rs.length rs = (List.range' i rs.length).zip rs
+  | [], _ => by simp [consumeResults]
+  | r :: rest, i => by
+    simp only [List.length_cons, consumeResults, Bool.false_eq_true, if_false, List.range'_succ, List.zip_cons_cons]
+    rw [consumeResults_lockstep rest (i + 1)]
+
 end Aqv.Consensus
